@@ -35,7 +35,7 @@ enum {
 	N_NBR_CANCEL_INFLIGHT, N_NBW_WRITE, N_NBW_BYTES, N_NBW_FAILCB, N_NBW_QUEUED_BEHIND, N_NBW_ZERO, N_NBW_FREE_INFLIGHT,
 	N_F_RECV_SHORT, N_F_RECV_EAGAIN, N_F_RECV_EINTR, N_F_RECV_ERR, N_F_SEND_SHORT, N_F_SEND_EAGAIN, N_F_SEND_EINTR,
 	N_F_SEND_ERR, N_F_POLL_EINTR, N_F_POLL_SPUR, N_F_ACCEPT_SOFT, N_F_ALLOC, N_POLLS, N_BLOCKS, N_RUNS, N_REG_FAIL,
-	N_RW_BOTH
+	N_RW_BOTH, N_OVERLAP, N_MANY
 };
 const char * const engine_counters[] = {
 	"read_requests", "read_completed", "read_eof", "read_error", "write_requests", "write_completed", "write_error",
@@ -49,11 +49,11 @@ const char * const engine_counters[] = {
 	"fault_recv_short", "fault_recv_eagain", "fault_recv_eintr", "fault_recv_hard_error", "fault_send_short",
 	"fault_send_eagain", "fault_send_eintr", "fault_send_hard_error", "fault_poll_eintr", "fault_poll_spurious",
 	"fault_accept_soft_error", "fault_alloc_failed", "polls", "poll_blocked", "events_run_calls", "probe_request_failed_alloc",
-	"probe_read_and_write_outstanding", NULL
+	"probe_read_and_write_outstanding", "probe_overlapping_request_refused", "probe_more_than_16_requests_outstanding", NULL
 };
 
 #define AF_SINCE(before) (simalloc_failed != (before))
-#define MAXS 8
+#define MAXS 40
 
 /* ---------- per-socket state ---------- */
 struct req {
@@ -68,7 +68,7 @@ struct req {
 	uint64_t nrecv_at_start;
 };
 #define MAXREQ 512
-static struct req reqs[MAXREQ];
+static struct req reqs[MAXREQ + 1];
 static int nreq;
 
 struct nbr {
@@ -147,12 +147,27 @@ issue_read(int si, size_t buflen, size_t min, int chain_n, size_t cb, size_t cm)
 	struct req * q;
 	int f0, attempt;
 
-	if (S->vs == NULL || S->kind != 0 || S->rd != NULL || S->nbr.R != NULL || nreq >= MAXREQ)
+	if (S->vs == NULL || S->kind != 0 || S->nbr.R != NULL || nreq >= MAXREQ)
 		return;
 	if (buflen < 1)
 		buflen = 1;
 	if (min > buflen)
 		min = buflen;
+	if (S->rd != NULL) {
+		/* a second request while one is pending must be refused and must leave the first one alone */
+		static uint8_t scratch[64];
+		void * c;
+
+		f0 = simalloc_failed;
+		LIB_ENTER();
+		c = network_read(S->vs->fd, scratch, sizeof(scratch), 1, rd_callback, &reqs[MAXREQ - 1]);
+		LIB_LEAVE();
+		R->cnt[N_OVERLAP]++;
+		TR(0x19, si, c != NULL, "overlapping network_read(sock %d) while id=%d is pending -> %s", si, S->rd->id, c ? "accepted" : "refused");
+		if (c != NULL)
+			sim_viol("C06.rd.once", "overlap-accepted", "a second read request on a descriptor with a read already pending was accepted");
+		return;
+	}
 	q = &reqs[nreq];
 	memset(q, 0, sizeof(*q));
 	q->id = nreq++;
@@ -190,6 +205,14 @@ issue_read(int si, size_t buflen, size_t min, int chain_n, size_t cb, size_t cm)
 	q->live = 1;
 	S->rd = q;
 	R->cnt[N_RD_REQ]++;
+	{
+		int k, n = 0;
+
+		for (k = 0; k < nss; k++)
+			n += (ss[k].rd != NULL) + (ss[k].wr != NULL);
+		if (n > 16)
+			R->cnt[N_MANY]++;
+	}
 	if (S->wr != NULL)
 		R->cnt[N_RW_BOTH]++;
 	TR(0x10, si, buflen * 65536 + min, "network_read(sock %d, buflen=%zu, min=%zu) id=%d%s", si, buflen, min, q->id, in_cb ? " [from callback]" : "");
@@ -203,12 +226,26 @@ issue_write(int si, size_t buflen, size_t min, int chain_n, size_t cb, size_t cm
 	size_t i;
 	int f0, attempt;
 
-	if (S->vs == NULL || S->kind != 0 || S->wr != NULL || S->nbw.W != NULL || nreq >= MAXREQ)
+	if (S->vs == NULL || S->kind != 0 || S->nbw.W != NULL || nreq >= MAXREQ)
 		return;
 	if (buflen < 1)
 		buflen = 1;
 	if (min > buflen)
 		min = buflen;
+	if (S->wr != NULL) {
+		static const uint8_t scratch[64] = { 0 };
+		void * c;
+
+		f0 = simalloc_failed;
+		LIB_ENTER();
+		c = network_write(S->vs->fd, scratch, sizeof(scratch), 1, wr_callback, &reqs[MAXREQ - 1]);
+		LIB_LEAVE();
+		R->cnt[N_OVERLAP]++;
+		TR(0x19, si, c != NULL, "overlapping network_write(sock %d) while id=%d is pending -> %s", si, S->wr->id, c ? "accepted" : "refused");
+		if (c != NULL)
+			sim_viol("C06.wr.once", "overlap-accepted", "a second write request on a descriptor with a write already pending was accepted");
+		return;
+	}
 	q = &reqs[nreq];
 	memset(q, 0, sizeof(*q));
 	q->id = nreq++;
@@ -1319,7 +1356,7 @@ engine_gen(struct plan * P, uint64_t seed, struct prng * g)
 	int pe, pi, ps, perr;
 
 	(void)seed;
-	scenario = (int)prng_n(g, 10);	/* 0-2 raw rw, 3 connect, 4 accept, 5-7 reader, 8-9 writer */
+	scenario = (int)prng_n(g, 11);	/* 0-2 raw rw, 3 connect, 4 accept, 5-7 reader, 8-9 writer, 10 many sockets at once */
 	faulty = prng_chance(g, 75);
 	pe = faulty && prng_chance(g, 60) ? (int)prng_n(g, 25) : 0;
 	pi = faulty && prng_chance(g, 60) ? (int)prng_n(g, 15) : 0;
@@ -1378,6 +1415,37 @@ engine_gen(struct plan * P, uint64_t seed, struct prng * g)
 				plan_add(P, "step", "cancel", 2, (int64_t)si, (int64_t)prng_n(g, 2));
 			else if (x < 68)
 				plan_add(P, "step", "work", 1, (int64_t)prng_n(g, 5000));
+			else {
+				l = plan_add(P, "step", "run", 1, (int64_t)(1 + prng_n(g, 4)));
+				gen_polltape(g, l, faulty);
+			}
+		}
+	} else if (scenario == 10) {
+		/* more than 16 requests outstanding at once, completing back to back in one poll round */
+		nsock = 17 + (int)prng_n(g, 14);
+		for (i = 0; i < nsock; i++) {
+			char nm[8];
+			size_t total = 1 + prng_n(g, 40);
+
+			snprintf(nm, sizeof(nm), "%d", i);
+			l = plan_add(P, "sock", nm, 4, (int64_t)0, (int64_t)(1 + prng_n(g, 100)), (int64_t)prng_n(g, 1000000), (int64_t)total);
+			pline_tok(l, 3, (int64_t)PE_DELIVER, (int64_t)(prng_chance(g, 80) ? 500 : prng_n(g, 2000)), (int64_t)total);
+			if (prng_chance(g, 50))
+				pline_tok(l, 3, (int64_t)PE_EOF, (int64_t)prng_n(g, 100), (int64_t)0);
+		}
+		for (i = 0; i < nsock; i++) {
+			plan_add(P, "step", "rd", 6, (int64_t)i, (int64_t)(1 + prng_n(g, 64)), (int64_t)prng_n(g, 2), (int64_t)(prng_chance(g, 20) ? 1 : 0), (int64_t)8, (int64_t)1);
+			if (prng_chance(g, 40))
+				plan_add(P, "step", "wr", 6, (int64_t)i, (int64_t)(1 + prng_n(g, 200)), (int64_t)prng_n(g, 2), (int64_t)0, (int64_t)8, (int64_t)1);
+		}
+		nsteps = 2 + (int)prng_n(g, 6);
+		for (s = 0; s < nsteps; s++) {
+			unsigned x = prng_n(g, 100);
+
+			if (x < 25)
+				plan_add(P, "step", "cancel", 2, (int64_t)prng_n(g, (uint32_t)nsock), (int64_t)prng_n(g, 2));
+			else if (x < 45)
+				plan_add(P, "step", "rd", 6, (int64_t)prng_n(g, (uint32_t)nsock), (int64_t)(1 + prng_n(g, 64)), (int64_t)1, (int64_t)0, (int64_t)8, (int64_t)1);
 			else {
 				l = plan_add(P, "step", "run", 1, (int64_t)(1 + prng_n(g, 4)));
 				gen_polltape(g, l, faulty);
@@ -1598,7 +1666,7 @@ engine_run(const struct plan * P)
 {
 	int i, step = 0;
 
-	snprintf(R->crash_prop, sizeof(R->crash_prop), "%s", plan_knob(P, "scenario", 0) >= 5 ? "C07" : "C06");
+	snprintf(R->crash_prop, sizeof(R->crash_prop), "%s", (plan_knob(P, "scenario", 0) >= 5 && plan_knob(P, "scenario", 0) <= 9) ? "C07" : "C06");
 	vk_fd_base = (int)plan_knob(P, "fd_base", 3);
 	if (vk_fd_base < 3)
 		vk_fd_base = 3;
